@@ -89,6 +89,21 @@ CLAIMED = {
         "technique": "Coq proof (induction over the settings list, lia/nia) + translator-regenerated model + bridge lemmas + differential correspondence",
         "design_ref": "DESIGN.md section 4, C07",
     },
+    "C19": {
+        "level": "proof",
+        "text": "Coq theorems over the reals for any list (no length bound): Welford's running count / mean / M2 / "
+                "variance / std / err, running covariance and covariance matrix equal the whole-sample quantities; "
+                "chunking and order independence; the stopping rule of estimate_from_repeats (all five clauses) for "
+                "any operations record. The model is regenerated from utils.py by a fail-closed translator and "
+                "bridged; the binary64 (PrimFloat) instance is compared bit for bit with CPython; an exact-arithmetic "
+                "oracle tests the floating-point accuracy clause.",
+        "note": "PARTIAL: the rounding-error clause ('to floating-point accuracy') is tested, not proved. Axioms "
+                "(stdlib Reals only): ClassicalDedekindReals.sig_forall_dec, sig_not_dec, "
+                "FunctionalExtensionality.functional_extensionality_dep. Trusted: Coq kernel, gen_welford translator, "
+                "x**0.5 (libm pow) vs correctly rounded sqrt within 1 ulp.",
+        "technique": "Coq proof over Reals (induction on the sample list) + translator-regenerated model + bit-exact PrimFloat correspondence",
+        "design_ref": "DESIGN.md section 4, C19",
+    },
 }
 
 
